@@ -132,7 +132,11 @@ def checkDirective (name : String) (args : List String) (inst : String → Optio
   | "C12", [k0, k1, k2, k3] =>
     match inst k0, inst k1, inst k2, inst k3 with
     | some i0, some i1, some i2, some i3 =>
-      if i0.dead || i1.dead || i2.dead || i3.dead then ([.pass false], [])
+      -- `C12_feedStrs_total`: a chunked session panics iff the whole feed panics; a panic that
+      -- depends on the chunking is a C12 violation (a panic under every chunking is C01's business)
+      if i0.dead && i1.dead && i2.dead && i3.dead then ([.pass false], [])
+      else if i0.dead || i1.dead || i2.dead || i3.dead then
+        ([.fail s!"C12:panic-depends-on-chunking whole={i0.dead} split={i1.dead} feed-per-char={i2.dead} feed_str-per-char={i3.dead}"], [])
       else ([checkChunked "random-split" i0 i1, checkPerChar i0 i2, checkChunked "feed_str-per-char" i0 i3], [])
     | _, _, _, _ => ([.pass false], [])
   | _, _ => ([], [])
